@@ -65,8 +65,9 @@ type Xfer struct {
 type CtlOut struct {
 	Run  bool   `json:"run"`
 	Ack  string `json:"ack"`
-	Post *St    `json:"post,omitempty"`
-	Req  []Req  `json:"req"`
+	Post  *St    `json:"post,omitempty"`
+	Req   []Req  `json:"req"`
+	Xfers []Xfer `json:"xfers"`
 }
 
 type Obs struct {
@@ -270,7 +271,7 @@ func (r *Runner) observe(evs []abci.Event) (reqs []Req, xfers []Xfer, types []st
 func emptyCtl() map[string]CtlOut {
 	m := map[string]CtlOut{}
 	for _, n := range ctlNames {
-		m[n] = CtlOut{Req: []Req{}}
+		m[n] = CtlOut{Req: []Req{}, Xfers: []Xfer{}}
 	}
 	return m
 }
@@ -318,16 +319,16 @@ func (r *Runner) doRecv(bctx sdk.Context, ln *Line) {
 		c, _ := bctx.CacheContext()
 		r.clearPauses(c)
 		res, evs := r.recvOn(c, r.mod, p)
-		rq, _, _ := r.observe(evs)
-		ln.Obs.Ctl["nopause"] = CtlOut{Run: true, Ack: res.Ack, Req: rq}
+		rq, xf, _ := r.observe(evs)
+		ln.Obs.Ctl["nopause"] = CtlOut{Run: true, Ack: res.Ack, Req: rq, Xfers: xf}
 	}
 	if r.controls["clean"] {
 		c, _ := bctx.CacheContext()
 		if r.emptyOrbiter(c) {
 			res, evs := r.recvOn(c, r.mod, p)
-			rq, _, _ := r.observe(evs)
+			rq, xf, _ := r.observe(evs)
 			post := w.project(c)
-			ln.Obs.Ctl["clean"] = CtlOut{Run: true, Ack: res.Ack, Req: rq, Post: &post}
+			ln.Obs.Ctl["clean"] = CtlOut{Run: true, Ack: res.Ack, Req: rq, Xfers: xf, Post: &post}
 		}
 	}
 	if r.controls["noacts"] && in.Mk == "PAYLOAD" && len(in.Acts) > 0 {
@@ -337,8 +338,8 @@ func (r *Runner) doRecv(bctx sdk.Context, ln *Line) {
 		w.seq--
 		p2, _ := r.packet(&in2)
 		res, evs := r.recvOn(c, r.mod, p2)
-		rq, _, _ := r.observe(evs)
-		ln.Obs.Ctl["noacts"] = CtlOut{Run: true, Ack: res.Ack, Req: rq}
+		rq, xf, _ := r.observe(evs)
+		ln.Obs.Ctl["noacts"] = CtlOut{Run: true, Ack: res.Ack, Req: rq, Xfers: xf}
 	}
 	if r.controls["nopt"] && in.Mk == "PAYLOAD" && in.Fw.Pt > 0 {
 		c, _ := bctx.CacheContext()
@@ -347,8 +348,8 @@ func (r *Runner) doRecv(bctx sdk.Context, ln *Line) {
 		w.seq--
 		p2, _ := r.packet(&in2)
 		res, evs := r.recvOn(c, r.mod, p2)
-		rq, _, _ := r.observe(evs)
-		ln.Obs.Ctl["nopt"] = CtlOut{Run: true, Ack: res.Ack, Req: rq}
+		rq, xf, _ := r.observe(evs)
+		ln.Obs.Ctl["nopt"] = CtlOut{Run: true, Ack: res.Ack, Req: rq, Xfers: xf}
 	}
 
 	if r.instr != nil {
